@@ -68,6 +68,18 @@ def comment_edit(rng, text):
 def blank_replace(rng, text):
     """replaces part of a run of white space (possibly the line break that ends a `//` comment and what follows it) by other
     white space: joins lines, swallows the code behind a comment, changes indentation"""
+    offs = editgen.byte_offsets(text)
+    if rng.random() < 0.5:
+        # "join lines" behind a comment: from the comment's trailing blanks / line break to somewhere in the white space of the
+        # next line(s), replaced by blanks without a line break - the code that follows becomes part of the comment
+        ends = [m for m in re.finditer(r"//[^\r\n]*?([ \t]*)(\r?\n)([ \t\r\n]+)", text)]
+        if ends:
+            m = rng.choice(ends)
+            a = rng.randrange(m.start(1), m.start(2) + 1)
+            b = rng.randrange(m.end(2) + 1, m.end(3) + 1)
+            if 0 < b < len(text) and text[b - 1] == "\r" and text[b] == "\n":
+                b += 1
+            return offs[a], offs[b], rng.choice([" ", "  ", "\t", " \t "])
     runs = [m for m in re.finditer(r"[ \t\r\n]+", text)]
     if not runs:
         return None
@@ -79,7 +91,6 @@ def blank_replace(rng, text):
         a -= 1
     if 0 < b < len(text) and text[b - 1] == "\r" and text[b] == "\n":
         b += 1
-    offs = editgen.byte_offsets(text)
     return offs[a], offs[b], rng.choice([" ", "  ", "\t", " \t ", "\n", "\n\n", " \n"])
 
 
